@@ -98,7 +98,12 @@ Definition schema_table : list (string * schema) :=
    ("PrecompiledContractsConfig", s_PrecompiledContractsConfig);
    ("SuspendedAddressList", s_SuspendedAddressList);
    ("AccountDispatchQueue", s_AccountDispatchQueue);
-   ("BlockInfoPart", s_BlockInfoPart)].
+   ("BlockInfoPart", s_BlockInfoPart);
+   ("WalletDataV1V2", s_WalletDataV1V2);
+   ("WalletDataV3", s_WalletDataV3);
+   ("WalletDataV4", s_WalletDataV4);
+   ("WalletDataHighloadV2", s_WalletDataHighloadV2);
+   ("WalletDataV5R1", s_WalletDataV5R1)].
 
 Fixpoint lookup (nm : string) (l : list (string * schema)) : option schema :=
   match l with
